@@ -198,6 +198,9 @@ def rule_b3(ctx: Ctx) -> None:
         else:
             ctx.violation("C03-B3", f, st, f"reader reports `{added}` when cells ({a}, {b}) are shaded: roles disagree with the writer (position <-> column, value <-> row)")
     rets = [st for st in f.body if isinstance(st, ast.Return)]
+    if len(found) == 2 and not (len(rets) == 1 and isinstance(rets[0].value, ast.Tuple) and len(rets[0].value.elts) == 2):
+        ctx.violation("C03-B3", f, rets[0] if rets else f.node, "the reader does not return the pair (adjacent positions, adjacent values)")
+        return
     if rets and len(found) == 2:
         # returned as (indices, values)
         sets = {}
